@@ -33,6 +33,7 @@ FIRST_CALLS = [('rate', t, l) for t in (None, 0.0, 0.37) for l in (None, True, F
 # (beta x 3, other kappa/tau) - exposes class-level or module-level caches keyed too coarsely;
 # 'cousin:<op>': through an instance of a different model class.
 SECOND_OPS = ['rate', 'predict_win', 'predict_draw', 'predict_rank']
+# every 'rate' history is run twice: outcomes given as ranks, and as scores (both calls), see run_hist
 
 
 def jobs(tier):
@@ -191,13 +192,24 @@ def run_hist(key, op, shape, ls0, first, tie, mk):
     if fop == 'rate':
         m1.rate(g1, ranks=[1, 0, 1], tau=ft, limit_sigma=fl)
         m1.rate(g1b, ranks=list(range(len(shape))), tau=ft, limit_sigma=fl)
+        # the score encoding has its own conversion path: exercise it in the earlier calls too
+        m1.rate(_first_game(m1), scores=[3, 7, 3], tau=ft, limit_sigma=fl)
+        m1.rate([[m1.rating(26.0 + i + j, 5.0 + i) for j in range(n)] for i, n in enumerate(shape)],
+                scores=[float(i) for i in range(len(shape))], tau=ft, limit_sigma=fl)
     else:
         getattr(m1, fop)(g1)
         getattr(m1, fop)(g1b)
     a = _call(m, op, _mk_teams(m, shape, mk), _ranks_for(shape, tie) if op == 'rate' else None)
+    a2 = None
+    if op == 'rate':
+        out = m.rate(_mk_teams(m, shape, mk), scores=[-r for r in _ranks_for(shape, tie)])
+        a2 = [[(p.mu, p.sigma) for p in t] for t in out]
     pristine()
     m2 = H.model_class(key)(**kw)
     b = _call(m2, op, _mk_teams(m2, shape, mk), _ranks_for(shape, tie) if op == 'rate' else None)
+    if op == 'rate':
+        # as scores on the fresh model: must equal the ranks result there and the scores result after the history
+        return [a, a2], [b, b]
     return a, b
 
 
